@@ -18,7 +18,18 @@ use crate::trace;
 #[derive(Clone, Debug, Serialize, Deserialize)]
 pub enum Item {
     /// key id, generation rank (timestamp = 1000 + rank*7, ties possible), value length class, expiry class, key length class
-    Record { key: u8, rank: u8, vlen: u16, blocks: u8, expiry: u8, long_key: u8 },
+    Record {
+        key: u8,
+        rank: u8,
+        vlen: u16,
+        blocks: u8,
+        expiry: u8,
+        long_key: u8,
+        /// > 0: every continuation block of a multi-block value begins with the image of a legacy
+        /// record of a key nobody wrote (newest timestamp of the whole file)
+        #[serde(default)]
+        ghost: u8,
+    },
     Marker { blocks: u8 },
     /// retirement markers still in the pending state (a retirement that was interrupted)
     PendingMarker { blocks: u8 },
@@ -62,8 +73,8 @@ pub struct MigCase {
 
 pub fn item() -> BoxedStrategy<Item> {
     prop_oneof![
-        14 => (0u8..10, 0u8..6, 1u16..900, prop_oneof![4 => Just(0u8), 2 => 1u8..5], 0u8..4, prop_oneof![12 => Just(0u8), 1 => Just(1u8), 1 => Just(2u8)])
-            .prop_map(|(key, rank, vlen, blocks, expiry, long_key)| Item::Record { key, rank, vlen, blocks, expiry, long_key }),
+        14 => (0u8..10, 0u8..6, 1u16..900, prop_oneof![4 => Just(0u8), 2 => 1u8..5], 0u8..4, prop_oneof![12 => Just(0u8), 1 => Just(1u8), 1 => Just(2u8)], prop_oneof![3 => Just(0u8), 1 => Just(1u8)])
+            .prop_map(|(key, rank, vlen, blocks, expiry, long_key, ghost)| Item::Record { key, rank, vlen, blocks, expiry, long_key, ghost }),
         3 => (1u8..5).prop_map(|blocks| Item::Marker { blocks }),
         1 => (1u8..4).prop_map(|blocks| Item::PendingMarker { blocks }),
         1 => Just(Item::Tombstone),
@@ -83,7 +94,7 @@ fn source_strategy(tier: Tier) -> BoxedStrategy<Source> {
         .prop_map(|(version, mut items, journal_items, plain_meta, many)| {
             // occasionally many small records: scan batches (256) and flush threshold (4096)
             for i in 0..many {
-                items.push(Item::Record { key: 200u8.wrapping_add((i % 50) as u8), rank: (i / 50 % 250) as u8, vlen: 8, blocks: 0, expiry: 0, long_key: 3 });
+                items.push(Item::Record { key: 200u8.wrapping_add((i % 50) as u8), rank: (i / 50 % 250) as u8, vlen: 8, blocks: 0, expiry: 0, long_key: 3, ghost: 0 });
             }
             Source::Synth { version, data_blocks: 0, items, journal_items: if many > 0 { vec![] } else { journal_items }, plain_meta }
         });
@@ -177,11 +188,27 @@ pub fn build_synth_ts(version: u32, items: &[Item], journal_items: &[u8], plain_
     let mut extents: Vec<(u64, u64)> = Vec::new();
     for (i, it) in items.iter().enumerate() {
         match it {
-            Item::Record { key, rank, vlen, blocks: nb, expiry, long_key } => {
+            Item::Record { key, rank, vlen, blocks: nb, expiry, long_key, ghost } => {
                 let k = key_bytes(version, *key, *long_key);
                 let vl = value_len(version, k.len(), *vlen, *nb);
                 let mut v = vec![0u8; vl];
                 crate::seq::stamp_fill(&mut v, *key as u16, i as u32);
+                if *ghost > 0 {
+                    // bytes that parse as a record head wherever a scan would look for one if it
+                    // stepped into this extent block by block
+                    let over = 6 + k.len() + layout::header_len(version);
+                    let total_blocks = layout::record_blocks(version, k.len(), vl);
+                    for j in 1..total_blocks {
+                        let gk = format!("ghost-{key}-{i}-{j}").into_bytes();
+                        let gv = b"a value nobody stored".to_vec();
+                        let img = layout::encode_record(version, s + j as u64, &gk, &gv, ts_base + 1_000_000, 0);
+                        let glen = 6 + gk.len() + layout::header_len(version) + gv.len();
+                        let at = j * B - over;
+                        if at + glen <= vl {
+                            v[at..at + glen].copy_from_slice(&img[..glen]);
+                        }
+                    }
+                }
                 let ts = ts_base + *rank as u64 * 7;
                 let ex = match expiry {
                     0 => 0,
